@@ -1,6 +1,8 @@
 package main
 
 import (
+	"go/token"
+
 	"golang.org/x/tools/go/ssa"
 )
 
@@ -79,6 +81,17 @@ func checkChunkTimesUnused(p *Program, r *Result, rule string) {
 					if _, isDbg := ref.(*ssa.DebugRef); isDbg {
 						continue
 					}
+					// parked in a field of a header struct: used only if that field is read somewhere
+					if st, ok := ref.(*ssa.Store); ok && st.Val == v {
+						if tn, f, _, ok := fieldRef(st.Addr); ok && tn != "" {
+							if at := fieldReadSomewhere(p, tn, f); at == "" {
+								continue
+							} else {
+								used = at
+								continue
+							}
+						}
+					}
 					used = p.pos(ref.Pos())
 				}
 			}
@@ -94,4 +107,36 @@ func checkChunkTimesUnused(p *Program, r *Result, rule string) {
 	if n == 0 {
 		r.held(rule, "mcap.loadChunk", "chunk header times", "", "the lexer does not decode the chunk's message times at all")
 	}
+}
+
+// fieldReadSomewhere: position of a read of struct field tn.f in go/mcap whose value is used ("" if none).
+func fieldReadSomewhere(p *Program, tn, f string) string {
+	for _, fn := range p.repoFunctions(pkgMcap) {
+		for _, in := range instrsOf(fn) {
+			var v ssa.Value
+			switch x := in.(type) {
+			case *ssa.UnOp:
+				if x.Op != token.MUL {
+					continue
+				}
+				if t2, f2, _, ok := fieldRef(x.X); !ok || t2 != tn || f2 != f {
+					continue
+				}
+				v = x
+			case *ssa.Field:
+				if t2, f2, _, ok := fieldRef(x); !ok || t2 != tn || f2 != f {
+					continue
+				}
+				v = x
+			default:
+				continue
+			}
+			for _, ref := range *v.Referrers() {
+				if _, isDbg := ref.(*ssa.DebugRef); !isDbg {
+					return p.pos(ref.Pos())
+				}
+			}
+		}
+	}
+	return ""
 }
